@@ -328,7 +328,7 @@ pub fn run(tier: Tier, seed: u64) -> i32 {
         case_witness,
     );
     if !run.failed() {
-        run.random("binary", tier.pick(400, 20_000), 600, |b| case(b, true));
+        run.random("binary", tier.pick(400, 6_000), 600, |b| case(b, true));
     }
     run.shards = nshards();
     run.shrink_iters = 3000;
